@@ -238,7 +238,8 @@ let process files texts toks ops noguard =
 
 let () =
   let files = ref [] and texts = ref [] and toks = ref [] and ops = ref [] and noguard = ref false in
-  let reset () = files := []; texts := []; toks := []; ops := []; noguard := false in
+  let bad = ref None in
+  let reset () = files := []; texts := []; toks := []; ops := []; noguard := false; bad := None in
   (try
      while true do
        let line = input_line stdin in
@@ -260,11 +261,15 @@ let () =
             | _ -> failwith "bad T line")
          | 'O' ->
            (match String.split_on_char '\t' line with
-            | _ :: fields -> ops := parse_op fields :: !ops
+            | _ :: fields ->
+              (* a log line the model does not know (a new mutating call): this workspace is reported as not replayable *)
+              (try ops := parse_op fields :: !ops with Failure m -> if !bad = None then bad := Some m)
             | _ -> failwith "bad O line")
          | 'Q' -> noguard := true
          | 'E' ->
-           process (List.rev !files) (List.rev !texts) (List.rev !toks) (List.rev !ops) !noguard;
+           (match !bad with
+            | Some m -> print_endline (Printf.sprintf "{\"model_crash\":\"%s\"}" (json_escape m))
+            | None -> process (List.rev !files) (List.rev !texts) (List.rev !toks) (List.rev !ops) !noguard);
            reset ()
          | _ -> failwith ("bad line: " ^ line)
      done
